@@ -692,13 +692,15 @@ def evaluate_tabulated(fi: FuncInfo):
 
     polys = list(range(64)) + [(1 << 15) | 1, 0b1000011, (1 << 9) | 0b10110]
     count = 0
+    # helper methods of the class that the model object does not have (an extracted evaluation helper) are followed
+    funcs = {f"self.{nm}": m.node for nm, m in (fi.cls.methods.items() if fi.cls else []) if nm != fi.name and not hasattr(gf2.BP, nm)}
     for m, mod in ((2, 0b111), (3, 0b1011), (4, 0b10011)):
         field = gf2.FieldModel(m, mod)
         xs = [gf2.FieldElem(field, v) for v in range(1 << m)] + [0, 1]
         for pv in polys:
             for x in xs:
                 try:
-                    run_fragment(fi.body, {"self": gf2.BP(pv), "x": x}, {}, max_steps=40000, ctors={"BinaryPolynomial": gf2.BP})
+                    run_fragment(fi.body, {"self": gf2.BP(pv), "x": x}, {}, max_steps=40000, ctors={"BinaryPolynomial": gf2.BP}, funcs=funcs)
                     return UNDECIDED, "no value returned"
                 except FragReturn as r:
                     got = r.value
